@@ -304,7 +304,8 @@ fn child_main(a: &[String]) -> ! {
     let consensus = crate::node::make_consensus(&cfg);
     let node = crate::node::Node::start_with_ancient(&dir.join("node"), consensus, &cfg, Some(dir.join("ancient")));
     let tip = node.tip();
-    ckb_systemtime::faketime().set_faketime(tip.timestamp() + 1000);
+    let _ft = ckb_systemtime::faketime();
+    _ft.set_faketime(tip.timestamp() + 1000);
     // let the start-up scan of unverified blocks finish before counting
     std::thread::sleep(std::time::Duration::from_millis(150));
     println!("COUNT0 {}", ckb_db::verif_crash::count());
@@ -355,6 +356,12 @@ impl C10<'_> {
             return;
         }
         let (c0, c1, final_number) = (nums[0], nums[1], nums[2]);
+        if std::env::var("VERIF_DEBUG").is_ok() {
+            eprintln!("C10 crashfreeze probe: {}", out.replace('\n', " | "));
+        }
+        if c1 == c0 {
+            self.ex.out.count("crashfreeze_pass_without_writes");
+        }
         let _ = std::fs::remove_dir_all(&d0);
         for k in (c0 + 1)..=c1 {
             for mode in ["before", "after"] {
@@ -392,7 +399,8 @@ impl C10<'_> {
                 // the next pass continues and ends where the crash-free pass ended
                 {
                     let node = self.ex.node.as_ref().unwrap();
-                    ckb_systemtime::faketime().set_faketime(node.tip().timestamp() + 1000);
+                    let _ft = ckb_systemtime::faketime();
+                    _ft.set_faketime(node.tip().timestamp() + 1000);
                     let shared = node.shared.clone();
                     let r = catch_unwind(AssertUnwindSafe(|| shared.verif_freeze_once()));
                     let n2 = node.store().freezer().map(|f| f.number()).unwrap_or(0);
@@ -526,7 +534,7 @@ pub fn run(opts: &Opts) {
             c.ex.end_case();
         } else {
             let mut rng = Rng::new(opts.seed);
-            let cases = if opts.thorough() { 150 } else { 14 } * opts.scale;
+            let cases = if opts.thorough() { 250 } else { 14 } * opts.scale;
             for _ in 0..cases {
                 gen_case(&mut c, &mut rng);
             }
